@@ -21,6 +21,17 @@ CLAIMS = {
             "of all 512 modifier subsets as real rule texts through NewMatchingResult().GetCosmeticOption() and Engine.GetCosmeticResult.",
             "Lean 4 proof over a hand-written model + exhaustive differential correspondence + regenerated constants",
             TB),
+    "C03": (True, "proof",
+            "Lean theorems (UF/Props/C03.lean, 14 obligations): c03_nopanic (patternToRegexp never slices out of range, all byte strings), "
+            "c03_text_closed_form (the rewritten text is start ++ one fixed piece per pattern byte ++ end), c03_text (for every ASCII pattern the text handed "
+            "to regexp.Compile PARSES to exactly the expression of the pattern's mask tokens -- no pattern character is read as a regex operator), "
+            "c03_ast (that expression accepts, under unanchored search, exactly the documented mask language, for ALL subjects without a line feed), and "
+            "c03 (compiled matcher = mask language for the pattern as written, '/*' tail included); plus decided fact obligations tying the proof to the "
+            "current Regex*/Mask* constants and the 256-byte escape table regenerated from /repo. Tie to Go: exact text equality of patternToRegexp vs model "
+            "(exhaustive over <=2-char patterns and short token strings, sampled beyond) and acceptance of the rule's real compiled regexp vs model vs spec on "
+            "pattern-derived subjects. Go's regexp engine itself is modelled (UF/Model/Regex*.lean), validated differentially against the real engine.",
+            "Lean 4 proof (parser + semantics of a regex model, induction over mask tokens) + differential correspondence + regenerated constants",
+            TB + " Domain: ASCII patterns, subjects without LF; RE2 semantics modelled for the subset the mask compiler emits."),
 }
 
 NA_REASON = "check under construction in this round (model/spec/theorems and correspondence ops being built; see DESIGN.md section 4); not claimed yet"
